@@ -1,5 +1,7 @@
 import CallbagModel.Script
 import CallbagModel.Ops.Compose
+import CallbagModel.Ops.Plug
+import CallbagModel.Ops.Concat
 import CallbagModel.Ops.FromIter
 import CallbagModel.Ops.Relay
 import CallbagModel.Ops.Take
@@ -40,6 +42,15 @@ def relayM {σ : Type} (k : Relay.Kind σ Int Int) : AnyM :=
   { St := Relay.St σ, Loc := Relay.Loc Int Int, M := Relay.machine k, nexts := fun _ => 0 }
 
 def takeM (n : Nat) : AnyM := { St := Take.St, Loc := Take.Loc Int, M := Take.machine Int n, nexts := fun _ => 0 }
+
+/-- `B` with its upstream `j` plugged by the closed source `A` -/
+def plugM (j : Nat) (A B : AnyM) : AnyM :=
+  { St := A.St × B.St, Loc := List (CFr A.Loc B.Loc), M := plug j A.M B.M, nexts := fun s => A.nexts s.1 + B.nexts s.2 }
+
+/-- `concat!(A₀, …, Aₙ₋₁)` of closed sources: every slot of the n-ary `concat` machine plugged -/
+def concatM (members : List AnyM) : AnyM :=
+  let base : AnyM := { St := Concat.St, Loc := Concat.Loc Int, M := Concat.machine Int members.length, nexts := fun _ => 0 }
+  (members.zipIdx.foldl (fun acc (A, j) => plugM j A acc) base)
 
 def forEachM : AnyM := { St := ForEach.St, Loc := ForEach.Loc Int, M := ForEach.machine Int, nexts := fun _ => 0 }
 
